@@ -5,6 +5,7 @@ import (
 	"context"
 	"fmt"
 	"os"
+	"strconv"
 	"os/exec"
 	"path/filepath"
 	"strings"
@@ -33,6 +34,11 @@ var solvers = []solverDef{
 	{"z3-new/noauto", func(f string, t, seed int) []string {
 		return []string{"z3-new", fmt.Sprintf("-T:%d", t), "smt.auto_config=false", fmt.Sprintf("smt.random_seed=%d", seed), f}
 	}},
+	{"z3-new/arith2", func(f string, t, seed int) []string {
+		// the previous simplex core: index equalities modulo linear arithmetic under uninterpreted functions (select/idx) are decided
+		// quickly where the default arithmetic solver is seed-sensitive (C34 ParseCustodianUpdateNodesExtra [content]), and vice versa
+		return []string{"z3-new", fmt.Sprintf("-T:%d", t), "smt.arith.solver=2", fmt.Sprintf("smt.random_seed=%d", seed), f}
+	}},
 	{"z3", func(f string, t, seed int) []string {
 		return []string{"z3", fmt.Sprintf("-T:%d", t), fmt.Sprintf("smt.random_seed=%d", seed), f}
 	}},
@@ -42,11 +48,16 @@ var solvers = []solverDef{
 }
 
 func runSolver(ctx context.Context, sd solverDef, file string, timeoutS, seed int) (string, string, float64) {
-	args := sd.cmd(file, timeoutS, seed)
+	// The budget of a solver run is timeoutS seconds of CPU time (ulimit -t), with a wall-clock ceiling of wallFactor times that:
+	// on an idle machine the two coincide, on a loaded machine an obligation still gets the CPU time it needs instead of turning
+	// into a spurious timeout (the solvers' own timeouts are wall-clock).
+	wall := timeoutS * wallFactor()
+	args := sd.cmd(file, wall, seed)
 	start := time.Now()
-	cctx, cancel := context.WithTimeout(ctx, time.Duration(timeoutS+5)*time.Second)
+	cctx, cancel := context.WithTimeout(ctx, time.Duration(wall+5)*time.Second)
 	defer cancel()
-	cmd := exec.CommandContext(cctx, args[0], args[1:]...)
+	sh := fmt.Sprintf("ulimit -t %d; exec \"$@\"", timeoutS+1)
+	cmd := exec.CommandContext(cctx, "bash", append([]string{"-c", sh, "govc-solver"}, args...)...)
 	var out bytes.Buffer
 	cmd.Stdout = &out
 	cmd.Stderr = &out
@@ -71,10 +82,23 @@ func runSolver(ctx context.Context, sd solverDef, file string, timeoutS, seed in
 	if cctx.Err() != nil {
 		return "timeout", s, el
 	}
+	if cmd.ProcessState != nil && !cmd.ProcessState.Exited() {
+		return "timeout", s, el // killed by the CPU-time limit
+	}
 	if strings.Contains(s, "timeout") || strings.Contains(s, "interrupted") {
 		return "timeout", s, el
 	}
 	return "error", s, el
+}
+
+// wallFactor: wall-clock ceiling of a solver run as a multiple of its CPU budget (GOVC_WALL_FACTOR, default 4).
+func wallFactor() int {
+	if v := os.Getenv("GOVC_WALL_FACTOR"); v != "" {
+		if n, err := strconv.Atoi(v); err == nil && n >= 1 && n <= 20 {
+			return n
+		}
+	}
+	return 4
 }
 
 // raceSolvers runs all solvers on one query file and returns the first definite answer.
@@ -183,6 +207,7 @@ type solveOpts struct {
 	retryS   int
 	seed     int
 	keep     bool
+	known    map[string]bool // obligations registered in known_findings.json: one short attempt, no long retry (see attempt below)
 }
 
 // solveAll decides every obligation of the context. Batch pass with z3-new first, stragglers individually on all solvers.
@@ -289,7 +314,13 @@ func (fc *FnCtx) solveAll(o solveOpts, tag string) {
 				defer func() { <-sem }()
 				f := fmt.Sprintf("%s.%d.smt2", base, i)
 				os.WriteFile(f, []byte(fc.renderOne(ob, true)), 0o644)
-				res := raceSolvers(f, timeoutS, seed, "")
+				t := timeoutS
+				if o.known[ob.Name] && t > 5 {
+					// a registered known finding is reported as KNOWN-FINDING whether the solvers say sat, unknown or time out
+					// (the quantified prelude rarely lets them produce a model): do not spend the straggler budget on it
+					t = 5
+				}
+				res := raceSolvers(f, t, seed, "")
 				if ob.Cover && res.Verdict != "unsat" {
 					// vacuity probe: anything but a refutation passes (quantified backgrounds rarely yield models)
 					res.Attempts = append(res.Attempts, "cover: not refuted ("+res.Verdict+")")
@@ -312,11 +343,11 @@ func (fc *FnCtx) solveAll(o solveOpts, tag string) {
 	attempt(o.quickS, o.seed, map[*Obligation]bool{})
 	undecided := map[*Obligation]bool{}
 	for _, ob := range fc.obls {
-		if ob.Result != nil && ob.Result.Verdict != want(ob) && ob.Result.Verdict != "sat" && ob.Result.Verdict != "unsat" {
+		if ob.Result != nil && ob.Result.Verdict != want(ob) && ob.Result.Verdict != "sat" && ob.Result.Verdict != "unsat" && !o.known[ob.Name] {
 			undecided[ob] = true
 		}
 	}
-	if n := len(undecided); n > 0 && n <= 3 {
+	if n := len(undecided); n > 0 && n <= 8 { // was 3: on a loaded machine a heavy function (storage.finalizeTransaction) has 4-6 quick-tier timeouts that all pass in the retry tier
 		attempt(o.retryS, o.seed+7919, undecided)
 	}
 }
